@@ -45,6 +45,7 @@ class ContentCfg:
         self.reifiable = 0.0        # bias towards roles that have reifications
         self.reified_nodes = 0.0    # probability of adding a collapsible reified node
         self.invalid_roles = 0.0
+        self.avoid_ambiguous = False   # skip AMR's include-91 / :subset / :superset (finding F4)
         self.__dict__.update(kw)
 
 
@@ -54,6 +55,10 @@ def gen_content(rng, spec, cfg=None):
     from ..ref.roles import model_ref
     mref = model_ref(spec)
     reif_roles = [r for r in mref.reifiable_roles() if not mref.is_inverted(r)]
+    reifications = list(mref.reifications)
+    if cfg.avoid_ambiguous:
+        reif_roles = [r for r in reif_roles if r not in (':subset', ':superset')]
+        reifications = [r for r in reifications if r[1] != 'include-91']
     bad_roles = models.invalid_roles(spec)
     pool = list(rng.pick(VAR_POOLS))
     n = 1 + rng.randrange(cfg.max_nodes)
@@ -131,8 +136,8 @@ def gen_content(rng, spec, cfg=None):
                 continue
             add((v, r, c))
     # collapsible reified node (for dereification): (x :ARG1-of (_ / concept :ARG2 y))
-    if mref.reifications and rng.chance(cfg.reified_nodes):
-        role, concept, srole, trole = rng.pick(mref.reifications)
+    if reifications and rng.chance(cfg.reified_nodes):
+        role, concept, srole, trole = rng.pick(reifications)
         fresh = next(v for v in ['r', 'r2', 'q', '_', '_2', '_3', 'k9'] if v not in varset)
         src = rng.pick(vars_)
         tgt = rng.pick(vars_) if rng.chance(0.5) else constant()
